@@ -23,8 +23,17 @@ func ReqURL(spec sim.ReqSpec) *url.URL {
 	return u
 }
 
+// SpecMethod is the method the request means ("" and the struct-literal
+// empty method both mean GET).
+func SpecMethod(spec sim.ReqSpec) string {
+	if spec.Method == "" || spec.Method == "<empty>" {
+		return "GET"
+	}
+	return spec.Method
+}
+
 func isPlainGET(spec sim.ReqSpec) bool {
-	return (spec.Method == "" || spec.Method == "GET") && http.Header(spec.Header).Get("Range") == ""
+	return SpecMethod(spec) == "GET" && http.Header(spec.Header).Get("Range") == ""
 }
 
 // ---- C03 -----------------------------------------------------------------
@@ -39,8 +48,11 @@ func C03(w *sim.World, in *Info) (vs []V, antecedent bool, class string) {
 	antecedent = true
 	if !isPlainGET(ex.Spec) {
 		what := ex.Spec.Method
-		if what == "" || what == "GET" {
+		if SpecMethod(ex.Spec) == "GET" {
 			what = "GET+Range"
+			if ex.Spec.Method == "<empty>" {
+				what = "empty-method+Range"
+			}
 		}
 		vs = append(vs, V{"C03", "not-plain-get", what, "a request that is not a plain GET was answered from the store: " + ex.Summary()})
 	}
@@ -55,7 +67,7 @@ func C03(w *sim.World, in *Info) (vs []V, antecedent bool, class string) {
 	if srcEx == nil {
 		return vs, true, "unknown-source"
 	}
-	if srcEx.Spec.Method != "" && srcEx.Spec.Method != "GET" {
+	if SpecMethod(srcEx.Spec) != "GET" {
 		vs = append(vs, V{"C03", "stored-from-non-get", srcEx.Spec.Method, "response obtained by a " + srcEx.Spec.Method + " was reused: " + ex.Summary()})
 	}
 	a, b := ReqURL(srcEx.Spec), ReqURL(ex.Spec)
@@ -289,10 +301,7 @@ var safeMethods = map[string]bool{"GET": true, "HEAD": true, "OPTIONS": true, "T
 
 // IsInvalidation inspects an exchange.
 func IsInvalidation(ex *sim.Exchange) *Invalidation {
-	m := ex.Spec.Method
-	if m == "" {
-		m = "GET"
-	}
+	m := SpecMethod(ex.Spec)
 	if safeMethods[m] || ex.Header == nil || ex.Status < 200 || ex.Status > 399 {
 		return nil
 	}
@@ -347,4 +356,51 @@ func methodClass(m string) string {
 		return "webdav"
 	}
 	return "unknown-token"
+}
+
+
+// ---- C05 (body fidelity on every exchange) ----------------------------------
+
+// C05Body: a response that names an origin message carries exactly that
+// message's body bytes; a from-store response is not emptied.
+func C05Body(w *sim.World, in *Info) (vs []V, antecedent bool) {
+	ex := in.Ex
+	if !in.HasResp || SpecMethod(ex.Spec) == "HEAD" {
+		return nil, false
+	}
+	if in.Mb != nil && in.Mb.Reply != nil && !in.Mb.Reply.FailBody {
+		antecedent = true
+		want := in.Mb.Body()
+		if ex.BodyErr != "" || !bytes.Equal(ex.Body, want) {
+			where := "origin-reply"
+			if in.FromStore {
+				where = "from-store"
+			}
+			vs = append(vs, V{"C05", "body-differs", where + sigPath(in), fmt.Sprintf("body of message %s came back with %d bytes (read error %q), the origin sent %d; %s", in.Mb.Serial, len(ex.Body), ex.BodyErr, len(want), ex.Summary())})
+		}
+		return vs, true
+	}
+	if in.FromStore && len(ex.Body) == 0 && ex.Status != 204 && ex.Status != 304 {
+		// which message's body should this be? the latest earlier non-304 reply to a GET for an equivalent URI
+		cur := ReqURL(ex.Spec)
+		var last *sim.UpCall
+		for _, e := range w.Exchanges {
+			if e.ID >= ex.ID {
+				break
+			}
+			for _, c := range e.Calls() {
+				if c.Reply == nil || c.Reply.Err != nil || c.Reply.Status == 304 || c.Method != "GET" {
+					continue
+				}
+				if u, err := url.Parse(c.URL); err == nil && oracle.CompareURI(u, cur) == oracle.Equivalent && c.Reply.Status == ex.Status {
+					last = c
+				}
+			}
+		}
+		if last != nil && len(last.Body()) > 0 && !last.Reply.FailBody {
+			vs = append(vs, V{"C05", "body-lost", "from-store" + sigPath(in), fmt.Sprintf("stored response served with an empty body; the origin's latest %d reply for this URI had %d bytes; %s", ex.Status, len(last.Body()), ex.Summary())})
+			return vs, true
+		}
+	}
+	return nil, false
 }
